@@ -445,6 +445,12 @@ func (r *Reader) readReflect(v interface{}) error {
 			return err
 		}
 
+		// 元素数量来自不可信输入：每个元素至少占用 1 字节，超过剩余数据量的长度必然非法，
+		// 必须在分配前拒绝，否则 4 字节输入即可触发数 GB 的分配
+		if int64(length) > int64(r.RemainingSize()) {
+			return fmt.Errorf("slice length %d exceeds remaining data %d", length, r.RemainingSize())
+		}
+
 		// 创建切片并读取每个元素
 		slice := reflect.MakeSlice(rv.Type(), int(length), int(length))
 		for i := 0; i < int(length); i++ {
